@@ -128,6 +128,15 @@ theorem QInv.step {q : DQ} {reg : Nat} {sh : Shared} {m : Micro} (h : QInv q reg
       · have := h1.2 n hn; simpa [upd, hc] using this
       · simp [upd]; omega
     · exact absurd rfl hb
+  case rd.bumpReg c c' k =>
+    split at hb
+    · rename_i e; subst e; simp only [if_true, effect, QInv]
+      obtain ⟨h1, h2⟩ := h
+      refine ⟨⟨⟨h1.1, fun n hn hc => ?_, fun n hn hc => ?_⟩, ?_⟩, by simp⟩
+      · have := h1.2 n hn; rw [hc] at this; omega
+      · have := h1.2 n hn; simpa [upd, hc] using this
+      · simp [upd]
+    · exact absurd rfl hb
   case rd.add c c' g k =>
     split at hb
     · rename_i e; subst e; simp only [if_true, effect, QInv]
@@ -149,6 +158,15 @@ theorem QInv.step {q : DQ} {reg : Nat} {sh : Shared} {m : Micro} (h : QInv q reg
       · have := h1.own n hn hc; simp [upd, hc]; omega
       · have := h1.oth n hn hc; simpa [upd, hc] using this
     · exact absurd rfl hb
+  case rdA.bumpReg c k c' k' =>
+    split at hb
+    · rename_i e; obtain ⟨e1, e2⟩ := e; subst e1; subst e2; simp only [and_self, if_true, effect, QInv]
+      obtain ⟨h1, h2⟩ := h
+      refine ⟨⟨h1.nodup, fun n hn => ?_⟩, by simp⟩
+      by_cases hc : n.space = c'
+      · have := h1.own n hn hc; simp [upd, hc]; omega
+      · have := h1.oth n hn hc; simpa [upd, hc] using this
+    · exact absurd rfl hb
   case clr.delSpace c c' =>
     split at hb
     · rename_i e; subst e; simp only [if_true, effect, QInv]; exact ⟨bnd_filter _ h, by simp⟩
@@ -156,6 +174,15 @@ theorem QInv.step {q : DQ} {reg : Nat} {sh : Shared} {m : Micro} (h : QInv q reg
   case clr.addFrom c c' g lo k =>
     split at hb
     · rename_i e; subst e; simp only [if_true, effect, QInv]; exact ⟨bnd_add g lo k h (Nat.zero_le _), by simp⟩
+    · exact absurd rfl hb
+  case clr.setCtr c c' v =>
+    split at hb
+    · rename_i e; subst e; simp only [if_true, effect, QInv]
+      simp only [QInv] at h
+      refine ⟨⟨h.nodup, fun n hn => ?_⟩, by simp⟩
+      by_cases hc : n.space = c'
+      · have := h.own n hn hc; omega
+      · have := h.oth n hn hc; simpa [upd, hc] using this
     · exact absurd rfl hb
   case fil.setCtr c n c' v =>
     split at hb
